@@ -132,6 +132,16 @@ class SymExec:
                 # element of a comprehension as an expression of the iterable: _each(elt[target := ITER[_k]])
                 g = n.generators[0]
                 it = self.subst(g.iter, env)
+                if isinstance(it, ast.Call):
+                    # a helper that only builds the iterable (one path): iterate what it returns
+                    hp_ = self.helper_paths(it, env)
+                    if hp_ is not None and len(hp_) == 1 and not hp_[0][1]:
+                        it = hp_[0][0]
+                if isinstance(it, ast.Call) and isinstance(it.func, ast.Name) and it.func.id in ELEMENTWISE and it.args and \
+                   isinstance(it.args[0], (ast.Tuple, ast.List)) and not any(isinstance(x, ast.Starred) for x in it.args[0].elts):
+                    # an element-wise formatter over a literal: one result per literal entry
+                    it = ast.Tuple(elts=[ast.Subscript(value=it, slice=ast.Constant(value=i_), ctx=ast.Load())
+                                         for i_ in range(len(it.args[0].elts))], ctx=ast.Load())
                 if isinstance(it, (ast.Tuple, ast.List)) and len(it.elts) <= 16 and \
                    not any(isinstance(x, ast.Starred) and not _is_each(x.value) for x in it.elts):
                     # a map over a literal: entry by entry; an entry *_each(E, IT) maps to *_each(elt(E), IT)
@@ -252,10 +262,15 @@ class SymExec:
         g = self._callee(call)
         if g is None:
             return None
-        params = g.bound_params() if g.cls is not None else list(g.all_params)
+        params = g.bound_params() if g.cls is not None else list(g.params)
         bind = {}
         for p_, a in zip(params, call.args):
             bind[p_] = a
+        if g.node.args.vararg is not None:
+            # *rest collects the remaining positional arguments
+            bind[g.node.args.vararg.arg] = ast.Tuple(elts=list(call.args[len(params):]), ctx=ast.Load())
+        elif len(call.args) > len(params):
+            return None
         for k in call.keywords:
             if k.arg is None:
                 bind[g.node.args.kwarg.arg] = k.value
@@ -495,9 +510,16 @@ class SymExec:
             if ea is not None:
                 # iterating "each E(IT[j])": the element is E itself (its own index names stand for
                 # the iteration); nested each = flattened iteration
-                e_ = ea[0]
-                while _each_of(e_) is not None and not isinstance(e_, (ast.List, ast.Tuple)):
-                    e_ = _each_of(e_)[0]
+                e_, it_ = ea
+                if _each_of(e_) is not None and not isinstance(e_, (ast.List, ast.Tuple)):
+                    while _each_of(e_) is not None and not isinstance(e_, (ast.List, ast.Tuple)):
+                        e_ = _each_of(e_)[0]
+                    return e_
+                own = sorted({x_.id for x_ in ast.walk(e_) if isinstance(x_, ast.Name) and x_.id.startswith('_k')} -
+                             {x_.id for x_ in ast.walk(it_) if isinstance(x_, ast.Name) and x_.id.startswith('_k')})
+                if len(own) == 1:
+                    # element number k of [E(IT[j]) for j]: E(IT[k]) - the same k as everything zipped with it
+                    return simplify(copy_replace(e_, lambda x_: k if isinstance(x_, ast.Name) and x_.id == own[0] else None))
                 return e_
             return ast.Subscript(value=x, slice=k, ctx=ast.Load())
         self._assign(target, elem(it), p, None)
@@ -544,6 +566,45 @@ class SymExec:
             return v
         return rec(v)
 
+    def _desugar_filtered(self, st, p):
+        """L.extend(E(x) for x in <literal> if C(x))  /  L = [E(x) for x in <literal> if C(x)]
+        as the explicit sequence  if C(x1): L.append(E(x1)) ; if C(x2): ...   (None when not of that form)"""
+        comp = recv = None
+        pre = []
+        if isinstance(st, ast.Expr) and isinstance(st.value, ast.Call) and isinstance(st.value.func, ast.Attribute) \
+           and st.value.func.attr == 'extend' and len(st.value.args) == 1 and not st.value.keywords:
+            comp, recv = st.value.args[0], st.value.func.value
+        elif isinstance(st, ast.Assign) and len(st.targets) == 1 and isinstance(st.targets[0], ast.Name) and \
+                isinstance(st.value, ast.ListComp):
+            comp, recv = st.value, ast.Name(id=st.targets[0].id, ctx=ast.Load())
+            init = ast.Assign(targets=[ast.Name(id=st.targets[0].id, ctx=ast.Store())], value=ast.List(elts=[], ctx=ast.Load()))
+            ast.copy_location(init, st)
+            pre = [init]
+        if not isinstance(comp, (ast.GeneratorExp, ast.ListComp)) or len(comp.generators) != 1 or not comp.generators[0].ifs:
+            return None
+        g = comp.generators[0]
+        it = self.subst(g.iter, p.env)
+        if not isinstance(it, (ast.Tuple, ast.List)) or len(it.elts) > 12 or any(isinstance(x, ast.Starred) for x in it.elts):
+            return None
+        out = list(pre)
+        for item in it.elts:
+            q_ = Path({}, ())
+            self._assign(g.target, item, q_, None)
+            bind = q_.env
+
+            def sub(e_):
+                return copy_replace(e_, lambda n_: bind[n_.id] if isinstance(n_, ast.Name) and isinstance(n_.ctx, ast.Load)
+                                    and n_.id in bind else None)
+            test = sub(g.ifs[0]) if len(g.ifs) == 1 else ast.BoolOp(op=ast.And(), values=[sub(c_) for c_ in g.ifs])
+            app = ast.Expr(value=ast.Call(func=ast.Attribute(value=recv, attr='append', ctx=ast.Load()),
+                                          args=[sub(comp.elt)], keywords=[]))
+            node = ast.If(test=test, body=[app], orelse=[])
+            for x_ in (app, node):
+                ast.copy_location(x_, st)
+            ast.fix_missing_locations(node)
+            out.append(node)
+        return out
+
     def _effect_call(self, st, p):
         """`x = self.helper(...)` / `self.helper(...)` where the helper has side effects: its stores,
         calls and events become ours (arguments substituted), one caller path per helper path"""
@@ -577,6 +638,10 @@ class SymExec:
         if isinstance(st, ast.FunctionDef):
             self.local_defs[st.name] = st
             return [p]
+        if self.bind_loops and isinstance(st, (ast.Expr, ast.Assign)):
+            des = self._desugar_filtered(st, p)
+            if des is not None:
+                return self._block(des, [p])
         if isinstance(st, (ast.Assign, ast.AugAssign, ast.AnnAssign, ast.Return, ast.Expr)):
             # a conditional expression forks the path like an if statement
             ife = None
@@ -889,6 +954,9 @@ def _each_of(v):
 
 
 _SIMPLIFY_DEPTH = 0
+# functions of the repository that return one result per element of their first argument (verified by
+# C19 R-EXH.elementwise on every run of that check)
+ELEMENTWISE = {'format_float'}
 BIG_VALUE = 4000        # nodes; larger values are kept as dependency summaries
 
 
@@ -1359,3 +1427,21 @@ def closed_returns(ctx, func, **kw):
         if p.end == 'return' and p.ret is not None:
             out.append((p.conds, p.ret))
     return out
+
+
+def unwrap_formatted(v):
+    """the number behind formatting wrappers:  format_float((a, b))[1].rstrip() -> b ;  str(x) -> x"""
+    while True:
+        if isinstance(v, ast.Call) and isinstance(v.func, ast.Attribute) and v.func.attr in ('rstrip', 'strip', 'lstrip', 'ljust', 'rjust'):
+            v = v.func.value
+            continue
+        if isinstance(v, ast.Subscript) and isinstance(v.slice, ast.Constant) and isinstance(v.slice.value, int) and \
+           isinstance(v.value, ast.Call) and isinstance(v.value.func, ast.Name) and v.value.func.id in ('format_float', '_fmt1') \
+           and v.value.args and isinstance(v.value.args[0], (ast.Tuple, ast.List)) and \
+           -len(v.value.args[0].elts) <= v.slice.value < len(v.value.args[0].elts):
+            v = v.value.args[0].elts[v.slice.value]
+            continue
+        if isinstance(v, ast.Call) and isinstance(v.func, ast.Name) and v.func.id in ('str', 'float', 'int') and len(v.args) == 1:
+            v = v.args[0]
+            continue
+        return v
